@@ -121,9 +121,10 @@ Definition x_gem_helpers (t : str) : res (str * str * str) :=
 From UV.Native Require MavenRange.
 From UV.Schemes Require Maven Nuget.
 From UV.Ref Require Maven.
+(* maven.Version(text) strips the blanks at both ends of its text before parsing it *)
 Definition mvn_text_cmp (a b : str) : comparison :=
-  UV.Schemes.Maven.maven_cmp {| UV.Schemes.Maven.m_text := a; UV.Schemes.Maven.m_parsed := UV.Ref.Maven.maven_parse a |}
-                             {| UV.Schemes.Maven.m_text := b; UV.Schemes.Maven.m_parsed := UV.Ref.Maven.maven_parse b |}.
+  UV.Schemes.Maven.maven_cmp {| UV.Schemes.Maven.m_text := a; UV.Schemes.Maven.m_parsed := UV.Ref.Maven.maven_parse (Advisory.strip_ws a) |}
+                             {| UV.Schemes.Maven.m_text := b; UV.Schemes.Maven.m_parsed := UV.Ref.Maven.maven_parse (Advisory.strip_ws b) |}.
 Definition text_constraints {V} (pr : V -> str) (r : res (list (Model.constr V))) : res (list (Model.constr str)) :=
   match r with
   | Ok cs => Ok (map (fun c => match c with Model.Star => Model.Star | Model.C o v => Model.C o (pr v) end) cs)
